@@ -12,14 +12,15 @@ SHRINK_FROM = 2      # never shrink the configuration field
 TRUSTED_COMMON = [
     'Coq 8.16.1 kernel; vm_compute only for the commands[] table check (forallb over 12 rows) and the examples',
     'axioms: none (Closed under the global context)',
-    'translator tools/translators/qsmtpd.py: commands[] rows (name, mask, handler, state, flags), MAXRCPT, MAXBADCMDS, MAXHOPS, queue exit-code range, 510-octet command limit, regenerated from the C on every run',
-    'hand-written model coq/Model/Session.v (smtploop dispatcher, smtp_helo/ehlo/from/rcpt/rset/noop/vrfy/quit/data, queue_envelope/queue_result, freedata, tarpit, sync_pipelining, wait_for_quit) on top of coq/Model/NetRead.v; tied to the real Qsmtpd binary by the whole-program correspondence run',
+    'translator tools/translators/qsmtpd.py: commands[] rows (name, mask, handler, state, flags), MAXRCPT, MAXBADCMDS, MAXHOPS, queue exit-code range, 510-octet command limit, the submission port string, the header names of check_rfc822_headers() and the literal pieces of the Date / From / Message-Id fields added in submission mode, regenerated from the C on every run',
+    'hand-written model coq/Model/Session.v (smtploop dispatcher, smtp_helo/ehlo/from/rcpt/rset/noop/vrfy/quit/data incl. the submission-mode branches, queue_envelope/queue_result, freedata, tarpit, sync_pipelining, wait_for_quit) on top of coq/Model/NetRead.v; tied to the real Qsmtpd binary by the whole-program correspondence run',
     'oracles of the model (address parser incl. user lookup, HELO check, MAIL parameters, relay-list lookup, DNS MX, qmail-queue outcome, trace header): theorems hold for all of them; for the correspondence they are instantiated in ocaml/session_driver.ml to match the scratch configuration built by harness/session/runner.py',
-    'whole-program harness: all of qsmtpd/** and lib/*.c from the working tree (ASan+UBSan), only lib/libowfatconn.c replaced by harness/session/fakedns.c; sleep/time/gettimeofday and the tarpit poll wrapped; AUTOQMAIL=/proc/self/cwd; qmail-queue stand-in harness/session/qq_standin.c; lock-step segment delivery by /proc/<pid>/syscall + SIOCOUTQ idle detection',
+    'whole-program harness: all of qsmtpd/** and lib/*.c from the working tree (ASan+UBSan), only lib/libowfatconn.c replaced by harness/session/fakedns.c; sleep/time/gettimeofday and the tarpit poll wrapped (fixed clock: the Message-Id stamp is constant; dates are masked by the runner, the added Date: field only where it equals the date of the Received: line); AUTOQMAIL=/proc/self/cwd; qmail-queue stand-in harness/session/qq_standin.c; lock-step segment delivery by /proc/<pid>/syscall + SIOCOUTQ idle detection',
     'extraction (ExtrOcamlBasic only) and ocaml/session_driver.ml incl. the reconstruction of ghost notes from (command text, reply code) for simple sessions in spec mode',
 ]
 ASSUMPTIONS_COMMON = [
-    'no TLS, port 25 (not submission), CHUNKING off: the configuration of the harness; those paths are outside this model; AUTH: only single-line AUTH PLAIN against the checkpassword stand-in (configuration auth=1), multi-line exchanges end the modelled session',
+    'no TLS, CHUNKING off: the configuration of the harness; those paths are outside this model; AUTH: only single-line AUTH PLAIN against the checkpassword stand-in (configuration auth=1), multi-line exchanges end the modelled session',
+    'submission mode (TCPLOCALPORT 587, cfg port=587) is modelled (oracle o_submission: MAIL FROM gate, header checks, Date/From/Message-Id additions); the TLS client certificate entitlement inside is_authenticated() (tls_verify) is not reached without TLS and is not modelled; control/msgidhost, the clock and the date text are oracles',
     'per-recipient filters all pass (no filterconf in the scratch tree); their combination is property C12',
     'the kernel delivers bytes to read() in segment order; a segment arrives when the server blocks in poll()',
 ]
